@@ -13,7 +13,7 @@ LEVEL = "exploration"
 TECHNIQUE = "runtime monitoring: independent physical-unit reference models of line / transformer / impedance / impedance switch / xward evaluated at the reported voltages of every converged power flow and compared row by row with the result tables"
 CASES = {"quick": 500, "thorough": 25000}
 BUDGET = {"quick": 60, "thorough": 1200}
-FLOORS = {"quick": {"nontrivial": 120, "extras": {"line_rows": 600, "trafo_rows": 300, "impedance_rows": 30, "zswitch_rows": 20, "xward_rows": 20,
+FLOORS = {"quick": {"nontrivial": 120, "extras": {"line_rows": 600, "trafo_rows": 300, "impedance_rows": 30, "zswitch_rows": 20, "xward_rows": 20, "trafo3w_rows": 60, "trafo3w_star_tap": 8,
                                                   "dc_line_rows": 100, "dc_trafo_rows": 40, "trafo_tap_offnominal": 200, "trafo_lv_tap": 30,
                                                   "trafo_phase_tap": 30, "trafo_tabular": 20},
                     "tags": {"trafo_model=t": 40, "trafo_model=pi": 40, "loading=power": 30, "angles=False": 30}, "max_skip_frac": 0.4},
@@ -24,7 +24,7 @@ RULE = ("seeded random networks with random ohmic data, taps at every position o
         "oracle evaluation; non-trivial = converged and >= 3 branch rows carrying > 1e-3 MVA; distinct = digest of inputs+options")
 ASSUMPTIONS = ["model agreement tolerance 1e-6 MVA / 1e-7 kA / 1e-4 % absolute + 1e-8 relative (observed noise <= 1e-11 on the unchanged tree)",
                "tap changer on the lv side also rescales the short-circuit impedance (documented as consistent with Sincal): taken as the documented behaviour",
-               "trafo3w rows are covered by C01/C03/C05 (star-point conversion is not re-implemented here)",
+               "trafo3w: three two-winding equivalents around the reported internal voltage, delta-star conversion of r and x separately (the documentation shows magnitudes only), star-point taps by the documented inversion; rows with a tap table, trafo3w_losses=star or calculate_voltage_angles=False are skipped",
                "DC runs: line flows from the B-model exactly; transformer rows only p_hv = -p_lv, pl = 0 and, for trafo_model='pi', the B-model flow"]
 
 TOL = {"p": 1e-6, "q": 1e-6, "i": 1e-7, "l": 1e-4, "pl": 2e-6, "ql": 2e-6}
@@ -81,6 +81,23 @@ def check_ac(net, opts, cnt):
         s = abs(complex(exp["p_hv_mw"], exp["q_hv_mvar"]))
         loaded += s > 1e-3
         _cmp(viols, opts, "trafo", i, got, exp, s)
+    loss_side = opts.get("trafo3w_losses", "hv")
+    for i in net.trafo3w.index:
+        t = net.trafo3w.loc[i]
+        if not t.in_service or np.isnan(vm.loc[[t.hv_bus, t.mv_bus, t.lv_bus]].values).any() or _has_open_switch(net, "t3", i):
+            continue
+        if bool(t.get("tap_dependency_table", False)) or loss_side == "star" or not angles:
+            continue
+        exp = ph.trafo3w_model(net, i, model, loss_side)
+        bal = exp.pop("star_current_balance_ka")
+        cnt["trafo3w_rows"] += 1
+        if bool(t.tap_at_star_point) and t.tap_pos != t.tap_neutral:
+            cnt["trafo3w_star_tap"] += 1
+        s = abs(complex(exp["p_hv_mw"], exp["q_hv_mvar"]))
+        loaded += s > 1e-3
+        _cmp(viols, opts, "trafo3w", i, net.res_trafo3w.loc[i], exp, s)
+        if bal > 1e-6 + 1e-8 * s:
+            viols.append(common.viol("trafo3w %s: currents of the three equivalent transformers do not balance at the reported internal voltage (%.3e kA)" % (i, bal), options=opts))
     for i in net.impedance.index:
         e = net.impedance.loc[i]
         if not e.in_service or np.isnan(vm.at[e.from_bus]) or np.isnan(vm.at[e.to_bus]):
@@ -185,7 +202,7 @@ def check_dc(net, opts, cnt):
     return viols, loaded
 
 
-COUNTERS = ["dc_garbage_cases", "line_rows", "trafo_rows", "impedance_rows", "zswitch_rows", "xward_rows", "dc_line_rows", "dc_trafo_rows",
+COUNTERS = ["dc_garbage_cases", "trafo3w_star_tap", "line_rows", "trafo3w_rows", "trafo_rows", "impedance_rows", "zswitch_rows", "xward_rows", "dc_line_rows", "dc_trafo_rows",
             "trafo_tap_offnominal", "trafo_lv_tap", "trafo_phase_tap", "trafo_tabular"]
 
 
@@ -209,6 +226,8 @@ def run_case(seed, tier, case_no):
             opts["numba"] = False
         if g.B(0.15):
             opts["algorithm"] = "iwamoto_nr"
+        if g.B(0.3):
+            opts["trafo3w_losses"] = g.C(["hv", "mv", "lv"])
         opts["tolerance_mva"] = 1e-8
         status, exc = pf.try_run(pp.runpp, net, **opts)
     else:
@@ -221,5 +240,5 @@ def run_case(seed, tier, case_no):
     tags.add("angles=%s" % bool(net._options["calculate_voltage_angles"]))
     cnt = {k: 0 for k in COUNTERS}
     viols, loaded = (check_ac if ac else check_dc)(net, opts, cnt)
-    n = sum(cnt[k] for k in COUNTERS[1:8])
+    n = sum(cnt[k] for k in COUNTERS[2:10])
     return common.case(digest, nontrivial=loaded >= 3, tags=tags, violations=viols[:6], sample=sample, evals=max(n, 1), extra=cnt)
